@@ -375,6 +375,7 @@ func streamPanic(c *Ctx) {
 	c.exhaust = true
 	panicAfterDeadlineProbe(c)
 	sharedOptionRecoverProbe(c)
+	invalidUTF8PanicProbe(c)
 	// clean call followed by a panicking call on the same handler (state must not leak)
 	for _, kind := range kinds {
 		sequenceProbe(c, kind)
@@ -436,6 +437,59 @@ func sharedOptionRecoverProbe(c *Ctx) {
 		c.Count("recover-shared-option")
 		if got != "calls=1 escaped=false code=data_loss" {
 			c.Fail("recover-count", "a WithInterceptors value used first for a handler without recovery, then behind WithRecover(f) for a "+kind+" handler that panics", got, "a handler panic must lead to exactly one call of the recovery function, whose error reaches the client")
+		}
+	}
+}
+
+// invalidUTF8PanicProbe (F23): "a panic with any value" includes strings that are not valid UTF-8.
+// The usual recovery function turns the value into the text of its error; that error must still
+// reach the client with its code in every protocol - an error whose text cannot be serialized
+// as it stands loses some bytes of the text, not its identity.
+func invalidUTF8PanicProbe(c *Ctx) {
+	for _, proto := range []string{"connect", "grpc", "grpcweb"} {
+		for _, kind := range []string{"unary", "server"} {
+			calls := 0
+			f := func(_ context.Context, _ connect.Spec, _ http.Header, v any) error {
+				calls++
+				return connect.NewError(connect.CodeDataLoss, fmt.Errorf("panic: %v", v))
+			}
+			var h http.Handler
+			if kind == "unary" {
+				h = connect.NewUnaryHandler("/s/m", func(ctx context.Context, req *connect.Request[wrapperspb.Int64Value]) (*connect.Response[wrapperspb.Int64Value], error) {
+					panic("bad\xff\xfeutf8")
+				}, connect.WithRecover(f))
+			} else {
+				h = connect.NewServerStreamHandler("/s/m", func(ctx context.Context, req *connect.Request[wrapperspb.Int64Value], s *connect.ServerStream[wrapperspb.Int64Value]) error {
+					panic("bad\xff\xfeutf8")
+				}, connect.WithRecover(f))
+			}
+			ic := &inprocClient{h: h}
+			cl := connect.NewClient[wrapperspb.Int64Value, wrapperspb.Int64Value](ic, "http://h/s/m", protoOptsPB(proto)...)
+			var err error
+			got := safely(func() string {
+				if kind == "unary" {
+					_, err = cl.CallUnary(context.Background(), connect.NewRequest(&wrapperspb.Int64Value{Value: 5}))
+				} else {
+					s, cerr := cl.CallServerStream(context.Background(), connect.NewRequest(&wrapperspb.Int64Value{Value: 5}))
+					if cerr == nil {
+						for s.Receive() {
+						}
+						err = s.Err()
+						_ = s.Close()
+					} else {
+						err = cerr
+					}
+				}
+				text := ""
+				if err != nil {
+					text = err.Error()
+				}
+				return fmt.Sprintf("calls=%d escaped=%v code=%s text-has-prefix=%v", calls, ic.panicked, codeOrOK(err), strings.Contains(text, "panic: bad"))
+			})
+			c.Count("recover-invalid-utf8")
+			if got != "calls=1 escaped=false code=data_loss text-has-prefix=true" {
+				c.Fail("recover-invalid-utf8", fmt.Sprintf("%s %s handler panics with a string that is not valid UTF-8; the recovery function returns data_loss with the value in its text", proto, kind), got, "the client must receive the error the recovery function returned (its code, and its text as far as it can be transmitted)")
+			}
 		}
 	}
 }
